@@ -88,6 +88,8 @@ TRUSTED = [
     "JSON line protocol encoders (harness/props/c10.py, drivers/C10.lean)",
 ]
 ASSUMPTIONS = [
+    "payload shape: a produced CSV text is modelled by its number of lines (that is where duplicate_last_bin and the "
+    "header show); its characters are compared between the two real runs by the oracle only",
     "locality: distinct flow values do not share mutable context objects (the generated values never do; a value "
     "yielded twice by an inner sequence and then mutated downstream is outside the model)",
     "pipelines: every modelled element finishes the side effects of a step before its first yield, so a Sequence is "
@@ -104,7 +106,10 @@ RULE = ("per element configuration (the 10 elements with several constructor set
         "processes): lists A (values the element's documented rule selects, error-raising ones included) and B (values "
         "it does not select: numbers, strings, None, floats, tuples, lists, bytes, bare dicts, foreign objects, pairs "
         "with unrelated context, pairs with disabling context such as output.write/to_csv False, histograms of the "
-        "wrong kind) are drawn from fixed palettes with ctx.rng; (1) every palette value once with a value of the "
+        "wrong kind, and unselected values whose context carries the settings the element reads for selected ones: "
+        "output.duplicate_last_bin/to_csv/write/filename/dirname/fileext/filetype/template/changed) are drawn from "
+        "fixed palettes with ctx.rng; flows without any selected value (the empty flow included) over not yet "
+        "existing output directories are part of every size sweep; (1) every palette value once with a value of the "
         "other kind, both orders; (2) for drawn (A, B) with |A|,|B| <= 3 (1-2 draws per size pair in quick, 14 in "
         "thorough) ALL interleaving patterns are enumerated (exhaustive up to 3+3); (3) thorough adds random "
         "patterns with |A|,|B| <= 6.  Quick keeps a cross of the 54 RunIf selector x inner-sequence settings. "
